@@ -38,14 +38,14 @@ import (
 // distances otherwise).  Any other difference is a violation.
 
 type rastCase struct {
-	Mode   string     `json:"mode"` // solidfilter collidersolid collider
-	Src    *source2   `json:"src,omitempty"`
-	Col    *colSpec   `json:"collider,omitempty"`
-	Sub    int        `json:"subsamples"` // 0: default (8)
-	Pixels float64    `json:"pixels"`     // scale = sqrt(pixels / area of the bounds)
-	LineW  float64    `json:"linewidth"`  // 0: default (1)
+	Mode   string      `json:"mode"` // solidfilter collidersolid collider
+	Src    *source2    `json:"src,omitempty"`
+	Col    *colSpec    `json:"collider,omitempty"`
+	Sub    int         `json:"subsamples"`    // 0: default (8)
+	Pixels float64     `json:"pixels"`        // scale = sqrt(pixels / area of the bounds)
+	LineW  float64     `json:"linewidth"`     // 0: default (1)
 	Pad    *[4]float64 `json:"pad,omitempty"` // explicit bounds: solid bounds moved by these fractions of the size (lo x, lo y, hi x, hi y); <0 at lo / >0 at hi pads, the other sign crops
-	Cfgs   []mcCfg    `json:"cfgs"`
+	Cfgs   []mcCfg     `json:"cfgs"`
 }
 
 type colSpec struct {
@@ -340,4 +340,3 @@ func checkRast(c rastCase, o *kit.Obs) error {
 	}
 	return nil
 }
-
